@@ -177,6 +177,22 @@ func c01Scenarios(tier string) []*Scenario {
 		add([]GNode{a, b}, []APICall{{Op: "scale", Name: "b", N: 2}})
 		add([]GNode{a, b}, []APICall{{Op: "restart", Name: "a", When: ended("a")}, {Op: "start", Name: "b", When: ended("b")}})
 	}
+	// the dependent of a process that was skipped (its own dependency failed) is started again by hand after both
+	// have ended as Skipped: the skipped process still counts as ended without satisfying anything
+	for _, c := range []string{cSucc, cHealthy, cLogReady} {
+		a := GNode{Name: "a", Beh: "fail"}
+		b := withDeps(depNodeFor("b", c, "sat"), map[string]string{"a": cSucc})
+		cc := leaf("c", map[string]string{"b": c})
+		skipped := func(name string) func(w *World) bool {
+			return func(w *World) bool { return w.lastStat[name] == "Skipped" }
+		}
+		add([]GNode{a, b, cc}, []APICall{{Op: "start", Name: "c", When: skipped("c")}})
+		scs[len(scs)-1].ID += "-restart-skipped-dependent"
+		cd := cc
+		cd.Disabled = true
+		add([]GNode{a, b, cd}, []APICall{{Op: "start", Name: "c", When: skipped("b")}})
+		scs[len(scs)-1].ID += "-start-disabled-dependent"
+	}
 	if tier == "thorough" {
 		// diamond and transitive triangle on four processes
 		for _, c1 := range []string{cSucc, cStarted, cLogReady} {
